@@ -1,6 +1,7 @@
 import Sgz.Model.Reader
 import Sgz.Model.Version
 import Sgz.Model.Config
+import Sgz.Model.Pipeline
 /-!
 Line-protocol driver over the executable model (`Sgz/Model`, Mathlib-free).  One request per line, one answer per
 line.  The Python harness sends the same request to the real implementation and diffs canonical answers.
@@ -98,11 +99,48 @@ def handleCfg (ws : List String) : String :=
     | .error e => s!"err {e}"
   | _ => "bad-op"
 
+def tidOf (c : Char) : Option Pipeline.Tid :=
+  if c == 'M' then some .M else if c == 'C' then some .C else if c == 'W' then some .W else none
+
+def enabledSet (N cap : Nat) (s : Pipeline.St) : String :=
+  String.ofList ((['M', 'C', 'W'].zip [Pipeline.Tid.M, .C, .W]).filterMap fun (ch, t) =>
+    if (Pipeline.step N cap s t).isSome then some ch else none)
+
+def showWr : Pipeline.Wr → String
+  | .H => "H"
+  | .B i => s!"B{i}"
+
+/-- `pipe N cap SCHEDULE`: replay a schedule (string over M/C/W); answer: enabled set before every step,
+whether every chosen thread was enabled, final write log, main done? -/
+def handlePipe (ws : List String) : String :=
+  match ws with
+  | [n, c, sched] =>
+    match n.toNat?, c.toNat? with
+    | some N, some cap =>
+      let rec go (s : Pipeline.St) (cs : List Char) (acc : List String) (ok : Bool) : Pipeline.St × List String × Bool :=
+        match cs with
+        | [] => (s, acc.reverse, ok)
+        | ch :: rest =>
+          match tidOf ch with
+          | none => (s, acc.reverse, false)
+          | some t =>
+            let en := enabledSet N cap s
+            match Pipeline.step N cap s t with
+            | some s' => go s' rest (en :: acc) ok
+            | none => go s rest (en :: acc) false
+      let (s, ens, ok) := go Pipeline.init sched.toList [] true
+      let log := " ".intercalate (s.log.map showWr)
+      let stuck := enabledSet N cap s
+      s!"{b2s ok} | {",".intercalate ens} | {log} | {b2s (s.m == .done)} | {stuck}"
+    | _, _ => "bad-op"
+  | _ => "bad-op"
+
 def handle (line : String) : String :=
   match (line.trimAscii.toString.splitOn " ").filter (· ≠ "") with
   | "read" :: rest => handleRead rest
   | "ver" :: rest => handleVer rest
   | "cfg" :: rest => handleCfg rest
+  | "pipe" :: rest => handlePipe rest
   | ["ping"] => "pong"
   | _ => "bad-op"
 
